@@ -376,6 +376,28 @@ inductive InFrag {α : Type} (bytes : Bytes) : Spec.St → StreamProg α → Pro
       (∀ out', Agree out out' → k out' = k out) →
       InFrag bytes s' (k out) → InFrag bytes s (.op o k)
 
+/-- does operation `o`, issued in abstract state `s`, come up short (a read that asks for
+at least one byte and gets fewer than it asked for)? -/
+def isShortRead (bytes : Bytes) (s : Spec.St) : Op → Bool
+  | .word w => decide (bytes.length < s.pos + w.len)
+  | .read size num => decide (num ≠ 0 ∧ size ≠ 0 ∧ bytes.length < s.pos + size * num)
+  | _ => false
+
+/-- **The `hio_eof` discipline**: a program that consults `eof` *only directly after a read
+that came up short* (`js` = "the previous operation was such a read") and whose other
+operations are defined by `Spec`.  This is what a loader must look like for its result not
+to depend on divergence D3 (`eof` at `pos = size` without a short read: true from memory,
+false from stdio and callbacks): `while (!hio_eof(f))` loops and `x = hio_read..(f); if
+(hio_eof(f))` tests after a complete read are outside it. -/
+inductive EofGuarded {α : Type} (bytes : Bytes) : Bool → Spec.St → StreamProg α → Prop where
+  | ret (js : Bool) (s : Spec.St) (a : α) : EofGuarded bytes js s (.ret a)
+  | eof (s : Spec.St) (k : Out → StreamProg α) :
+      EofGuarded bytes true s (k (.val 1)) → EofGuarded bytes true s (.op .eof k)
+  | op (js : Bool) (s s' : Spec.St) (o : Op) (out : Out) (k : Out → StreamProg α) :
+      o ≠ .eof → Spec.step bytes s o = some (out, s') →
+      (∀ out', Agree out out' → k out' = k out) →
+      EofGuarded bytes (isShortRead bytes s o) s' (k out) → EofGuarded bytes js s (.op o k)
+
 /-- run on the abstract stream (`none` when the program leaves the fragment) -/
 def Spec.run {α : Type} (bytes : Bytes) : StreamProg α → Spec.St → Option α
   | .ret a, _ => some a
